@@ -172,6 +172,11 @@ func (w *World) applyEvent(ev string) bool {
 		w.StartNode()
 		w.settle()
 		w.settleMacro()
+		if !w.Node.IsReady(core.Ctx()) {
+			// the node may only get back in sync after its 60 s headers request time-out (known quirk, DESIGN §7)
+			w.Tick(61 * time.Second)
+			w.settleMacro()
+		}
 		w.lastUnsync = w.S.Now
 	case "crash":
 		// the process dies: every thread of the node is abandoned, a new node starts on the store
